@@ -29,8 +29,8 @@ def run_link(ctx, replay=None, corpus_dirs=("C01", "C03")):
                 jobs.append(("forward%d" % i, ["gen", "link-forward", (n_exact + n_burst) // parts // 5], ctx.seed * 1000 + 650 + i))
                 # the forwarder at chunk granularity: stepped scripts replayed exactly against M_forward, and
                 # monitor scripts with chunk streams cancelled between any two polls
-                jobs.append(("fwdexact%d" % i, ["gen", "link-fwdexact", 120 if quick else 2500], ctx.seed * 1000 + 660 + i))
-                jobs.append(("fwdchunks%d" % i, ["gen", "link-fwdchunks", 150 if quick else 3000], ctx.seed * 1000 + 670 + i))
+                jobs.append(("fwdexact%d" % i, ["gen", "link-fwdexact", 120 if quick else 600], ctx.seed * 1000 + 660 + i))
+                jobs.append(("fwdchunks%d" % i, ["gen", "link-fwdchunks", 150 if quick else 1500], ctx.seed * 1000 + 670 + i))
                 if i == 0:
                     jobs.append(("closecancel", ["gen", "link-closecancel", 120 if quick else 4000], ctx.seed * 1000 + 680))
                 continue
